@@ -85,6 +85,21 @@ def _generation_rule(chk, prog):
                     chk.violation(rule, fn.tu.name, fn.name, "sched_id", x.loc,
                                   "fiber generation counter modified outside the suspension points: %s" % x.text())
     chk.floor(rule, 3)
+    # who-must-write: each suspension point invalidates the outstanding registrations.  janet_call and janet_signalv
+    # are siblings (an await that is coerced to an error while C code re-entered the VM abandons its wait in either).
+    for w in sorted(allowed):
+        chk.instance(rule)
+        fn = next((f for f in prog.all_funcs() if f.name == w), None)
+        if fn is None:
+            raise AnalysisBroken("generation writer %s not found" % w)
+        incs = [x for x in fn.nodes if x.k == "un" and x.op in ("pre++", "post++") and is_mem(x.kids[0], "sched_id", "JanetFiber")]
+        if incs:
+            chk.ok(rule, "%s still invalidates outstanding registrations (%s)" % (w, incs[0].text()))
+        else:
+            chk.violation(rule, fn.tu.name, w, "bump-missing", fn.loc,
+                          "%s no longer increments the fiber's sched_id: a wait abandoned there (await coerced to an error, "
+                          "re-scheduling) keeps a matching generation, so its timer/channel/stream registration can still "
+                          "resume the fiber out of whatever it waits for next" % w)
 
 
 def _detach_rule(chk, prog):
